@@ -27,6 +27,8 @@ def check(model, R, tier):
     check_dropout(model, R)
     check_bn(model, R)
     from sa.props.c12 import check_mode
+    from sa.props.c12 import check_super_roles
+    check_super_roles(model, R, 'C13')
     check_mode(model, R, 'C13')      # train()/eval() reach every descendant layer: necessary for 'any interleaving of mode switches'
     return dict(
         explanation='Decides which path is taken under which mode predicate and what is written when: Dropout eval path is the identity with no draw; the training path draws once, compares with p in the right orientation, '
